@@ -135,7 +135,7 @@ theorem next_progress (cs : List Char) (k : RK) (t rest : List Char) (h : next c
     unfold next at h
     simp only [show cur (c :: r) = c from rfl] at h
     split at h
-    · cases h
+    · simp only [illegal] at h; cases h; left; simp
     · split at h
       · -- '/'
         split at h
